@@ -4,7 +4,7 @@ EXPLANATION = ('Single-fault injection as a SYMBOLIC variable: fail_at in [0, k)
                'C04 (ST::string copy / assignment / += / + / slicing / case mapping / trim / replace), C08 (slicing), C03 (conversions), C14 (codecs) and C09 (split through the vector model, whose growth is one more injectable failure point). Asserted after the failure: std::bad_alloc is what escapes; every involved object '
                'satisfies its representation invariant and holds its previous value or is empty; data() is not a released pointer (dereferencing it is a checked access); destroying everything with the real destructors gives no double free, '
                'no free of in-object storage and no leak (live-block counter).')
-BOUNDS = {'quick': 'one failing allocation per operation, every allocation index the operation can reach; buffer sizes 0..L+2 (char and char32_t), stream capacity 8/16, strings <= 5 bytes',
+BOUNDS = {'quick': 'one failing allocation per operation, every allocation index the operation can reach; buffer sizes 0..L+2 (char and char32_t), stream capacity 8/16, strings <= 5 bytes; ST::string copy / assignment / += / + / substr / right / to_upper / trim with failing allocation index 0..2',
           'thorough': 'all four buffer element types, sizes 0..2L+2'}
 OUTSIDE = 'more than one failing allocation per operation; allocation failures inside libstdc++ (std::function, iostream, std::vector growth beyond the modelled failure point)'
 def queries():
